@@ -34,10 +34,14 @@
            harness just below and just above each draw), computed here:   7 10 hdr  st  n { v cm cp }*
      op 7  Rand on a relational-kind distribution with a scripted source (no Rand method of its own):
            7 7 kind par own hst  bl bh cbl cbh cpl cph  nsrc { int63 }*  st consumed y draw  { y ist x xm c0 cm rst ref }
+     op 11 InvCDF(UDist{N1,N2,T}) against the EXACT model of C02 (Model/Udist.v):   7 11 N1 N2 nt { t }*  ny { y st obs }*
+           (nt = 0: T is nil, no ties).  The support of U is 0, 1/2, ..., N1*N2: the comparison is made in DOUBLED units
+           (support points k = 0 .. 2 N1 N2, observed values doubled), with the comparator of ops 1 / 2
    All of x l v bl bh y obs ... are float64 bit patterns; st: 0 = returned, 2 = panicked.
    knot (x, l, v): break point, left limit, value (see Model/InvCDF.v). *)
 From MM Require Import Base.Num Model.Choose Model.Binom Model.Hyperg Model.InvCDF Check.C06.
 From Coq Require Import Qround.
+From MM Require Model.Udist Check.C02.
 Local Open Scope Z_scope.
 
 (* "to within 1e-9 relative": 1e-9 |x*|, plus what the harness's OWN float64 evaluation of a ramp costs:
@@ -275,6 +279,18 @@ Fixpoint run_disc_items (tab : list (Z * Q)) (lo hi : Z) (items : list (xreal * 
       | Some dg => (Z.lor tag t, Some (idx, dg))
       end
   end.
+
+(* op 11: UDist in doubled units.  InvCDF of a step cdf returns the jump point itself (a half-integer u); the table
+   lists the exact cdf of C02's model at u = k/2 for k = 0 .. 2 N1 N2 and the observed value is doubled.  Without
+   ties the cdf only jumps at integers u: the odd keys then repeat the value of the even key below them. *)
+Definition udouble (x : xreal) : xreal := match x with XFin q => XFin (2 * q)%Q | _ => x end.
+Definition udouble_items (items : list (xreal * Z * xreal)) : list (xreal * Z * xreal) :=
+  map (fun it => match it with (y, st, o) => (y, st, udouble o) end) items.
+Definition ucdf2 (n1 n2 : nat) (T : list nat) (k : Z) : Q := Udist.udist_cdf n1 n2 T (inject_Z k / 2)%Q.
+(* the property's domain as in Check/C02.v, and sizes the direct model function tabulates quickly
+   (N1 = N2 = 5 untied: 0.5 s in Coq; 6, 6: 7 s) *)
+Definition udist_params_ok (n1 n2 : nat) (T : list nat) : bool :=
+  C02.valid_T n1 n2 (match T with [] => true | _ => false end) T && (n1 + n2 <=? 10)%nat && (n1 * n2 <=? 25)%nat.
 
 Definition finish (r : Z * option (Z * list Z)) : list Z :=
   match r with
@@ -606,6 +622,16 @@ Definition check_C07 (line : list Z) : list Z :=
                        else verdict V_MISMATCH (Z.lor T_RAND T_KS) 0 (st :: qdiag dq)
           | _ => verdict V_MISMATCH (Z.lor T_RAND T_KS) 0 [st]
           end
+      | None => verdict V_MALFORMED 0 (-1) []
+      end
+  | 7 :: 11 :: rest =>
+      match (do n1 <- pnat; do n2 <- pnat; do T <- plist pnat; do items <- plist p_item; pend (n1, n2, T, items)) rest with
+      | Some ((n1, n2, T, items), _) =>
+          if negb (udist_params_ok n1 n2 T) then verdict V_MALFORMED 0 (-1) [] else
+          let hi := 2 * Z.of_nat (n1 * n2) in
+          let tab := cdf_table (ucdf2 n1 n2 T) 0 (Z.to_nat (hi + 1)) in
+          let items2 := udouble_items items in
+          finish (with_mono 0 items2 (run_disc_items tab 0 hi items2 0 0))
       | None => verdict V_MALFORMED 0 (-1) []
       end
   | _ => verdict V_MALFORMED 0 (-1) []
